@@ -102,6 +102,26 @@ func runQueueSeq(k qkind, ops []qop) (sig, desc string) {
 		}
 		return nil
 	}
+	// every list Acked handed back is kept as it was returned, next to a deep copy taken at that
+	// moment: what was handed back stays what it was, whatever the queue does afterwards (the service
+	// goes through the list after the queue's lock is released)
+	type handedBack struct {
+		step int
+		list []sessions.AckMsg
+		copy []sessions.AckMsg
+	}
+	var handed []handedBack
+	checkHanded := func(step int) (string, string) {
+		for _, h := range handed {
+			for i := range h.copy {
+				g, w := h.list[i], h.copy[i]
+				if g.Pktid != w.Pktid || g.State != w.State || g.Mtype != w.Mtype || !bytes.Equal(g.Msgbuf, w.Msgbuf) || !bytes.Equal(g.Ackbuf, w.Ackbuf) {
+					return "c13:handed-back-changed:" + k.name, fmt.Sprintf("step %d: entry %d of the list handed back at step %d was id %d (request %s), it now reads id %d (request %s)", step, i, h.step, w.Pktid, hex(w.Msgbuf), g.Pktid, hex(g.Msgbuf))
+				}
+			}
+		}
+		return "", ""
+	}
 	for step, o := range ops {
 		switch o.op {
 		case 'r':
@@ -168,9 +188,24 @@ func runQueueSeq(k qkind, ops []qop) (sig, desc string) {
 					return "c13:completion-token:" + k.name, fmt.Sprintf("step %d: id %d completion token %v, registered %d", step, w.id, g.OnComplete, w.token)
 				}
 			}
+			if len(got) > 0 {
+				cp := make([]sessions.AckMsg, len(got))
+				for i, g := range got {
+					cp[i] = g
+					cp[i].Msgbuf = append([]byte{}, g.Msgbuf...)
+					cp[i].Ackbuf = append([]byte{}, g.Ackbuf...)
+				}
+				handed = append(handed, handedBack{step: step, list: got, copy: cp})
+				if len(handed) > 8 {
+					handed = handed[1:]
+				}
+			}
+			if sig, desc := checkHanded(step); sig != "" {
+				return sig, desc
+			}
 		}
 	}
-	return "", ""
+	return checkHanded(len(ops))
 }
 
 func seqString(ops []qop) string {
